@@ -231,6 +231,12 @@ func checkMsg(c MsgCase, cv *cov) (v *evid.Violation) {
 				{[]byte{0x0b, 0, 1, 0, 0, 0, 2, 'o', 'k', 0}, 0, "ok", "only the text field"},
 				{append(append([]byte{0x08, 0, 1, 0, 0, 0, 5, 0x08, 0, 2}, i32(tid)...), 0), tid, "", "field 1 as an i32 (skipped) and the type field"},
 				{append(append([]byte{0x0b, 0, 2, 0, 0, 0, 1, 'x', 0x08, 0, 2}, i32(tid)...), 0), tid, "", "field 2 once as a string (skipped) and once as i32"},
+				// Thrift does not fix the order of fields: the type may precede the text, with or without
+				// fields of other ids in between
+				{append(append([]byte{0x08, 0, 2}, i32(tid)...), 0x0b, 0, 1, 0, 0, 0, 4, 'b', 'o', 'o', 'm', 0), tid, "boom", "the type field before the text field"},
+				{append(append([]byte{0x08, 0, 2}, i32(tid)...), 0x02, 0, 9, 1, 0x0b, 0, 1, 0, 0, 0, 0, 0), tid, "", "the type field, an unknown bool, an empty text field"},
+				{append(append([]byte{0x0a, 0, 7, 1, 2, 3, 4, 5, 6, 7, 8, 0x08, 0, 2}, i32(tid)...), 0x0b, 0, 1, 0, 0, 0, 1, 'z', 0x06, 0, 3, 0, 1, 0), tid, "z", "unknown i64, type, text, unknown i16"},
+				{append(append([]byte{0x0b, 0, 1, 0, 0, 0, 2, 'h', 'i', 0x08, 0, 2}, i32(tid)...), 0), tid, "hi", "the text field before the type field"},
 			}
 			for _, bd := range bodies {
 				msg := append(append([]byte(nil), want...), bd.b...)
